@@ -27,7 +27,7 @@ ASSUMPTIONS = [
     "with link faults enabled bring-up may raise; only a reported success is held to the adopt/second/format clauses",
     "command payload schemas inside the NCP model are bellows' own tables (header layouts and negotiation logic are independent)",
 ]
-PROBES = ["reset_with_command_queued", "spontaneous_rstack_before_rst", "spontaneous_rstack_while_reset_pending", "startup_wait_timed_out", "startup_reset_consumed",
+PROBES = ["second_connection_same_object", "reset_with_command_queued", "spontaneous_rstack_before_rst", "spontaneous_rstack_while_reset_pending", "startup_wait_timed_out", "startup_reset_consumed",
           "bringup_raised_under_faults", "bringup_retry_after_faults_ok", "second_query_sent", "version_gt_14", "renegotiated_after_reset", "sched.batch", "sched.reorder"]
 
 VERSIONS = list(range(4, 21))
@@ -203,6 +203,23 @@ def run(scenario, params, tape, detail=False):
         except Exception as e:
             st["second"] = ("raised", type(e).__name__, repr(e))
         st["resets_seen"] = ncp.resets - nres
+        if not faults and boot is None and "second" not in st:
+            # the same EZSP object connected a second time (close, connect, bring-up): negotiation starts from scratch
+            probe("second_connection_same_object")
+            st["third_reset_index"] = len(ncp.first_after_reset)
+            nbad = len(ncp.bad_requests)
+            try:
+                ez.close()
+                await asyncio.sleep(0.5)
+                await ez.connect(use_thread=False)
+                await ez.startup_reset()
+                st["third"] = ("ok", ez.ezsp_version, type(ez._protocol).VERSION, ncp.negotiated)
+                await ez.write_config({})
+                r = await ez.getEui64()
+                st["eui3"] = bytes(r[0].serialize())
+            except Exception as e:  # noqa: BLE001
+                st["third"] = ("raised", type(e).__name__, repr(e))
+            st["third_bad"] = [(tt, raw.hex(), why) for (tt, raw, why) in ncp.bad_requests[nbad:]][:2]
 
     outcome, val = rig.run(main())
     if plan_ is not None:
@@ -288,6 +305,13 @@ def run(scenario, params, tape, detail=False):
                     probe("renegotiated_after_reset")
                 if st.get("eui2") != ncp.eui64:
                     live.append(("C09.format", "command-after-renegotiation", f"getEui64 after renegotiation gave {st.get('eui2')!r}"))
+        th = st.get("third")
+        if th is not None:
+            if th[0] != "ok":
+                live.append(("C09.adopt", "second-connection-raised", f"bring-up on the second connection of the same EZSP object raised {th[2]} (NCP v{V})"))
+            elif th[1] != V or th[2] != min(V, 14) or not th[3] or st.get("eui3") != ncp.eui64:
+                viol.append(("C09.adopt", "second-connection", f"second connection of the same EZSP object to an NCP of version {V}: version {th[1]}, tables v{th[2]}, "
+                             f"NCP negotiated={th[3]}, getEui64 {st.get('eui3')!r}; wrongly framed requests {st.get('third_bad')}"))
     elif bring is not None:
         if faults:
             probe("bringup_raised_under_faults")
